@@ -340,3 +340,10 @@ def hint(*args):
 @native
 def hashed():
     raise NotImplementedError("ghost value (input of the last digest) has no native reading")
+
+
+@native
+def v1_pieces(stream, pl):
+    import hashlib
+    stream = bytes(stream)
+    return b"".join(hashlib.sha1(stream[i:i + pl]).digest() for i in range(0, len(stream), pl))
